@@ -221,6 +221,23 @@ func hostileCmd(args []string) error {
 			return append([]byte{0xd8, 0x00, 0x01}, rep([]byte{0x08, 0x00, 0x01}, n, []byte{0x0c, 0x1c})...)
 		}},
 		{"n nested StructBegin at tag 0", func(n int) []byte { return rep([]byte{0x0a}, n, nil) }},
+		// containers of containers in positions that really are skipped: tag 0 comes before the first member of
+		// the two packets, tag 3 is a gap of Vt.Inner (after its required a), and Vt.Opts reaches the same gap through inn
+		{"n nested MAP(1) keys at tag 0", func(n int) []byte { return rep([]byte{0x08, 0x00, 0x01}, n+1, []byte{0x0c, 0x1c}) }},
+		{"n nested LIST(1) at tag 0", func(n int) []byte { return rep([]byte{0x09, 0x00, 0x01}, n+1, []byte{0x0c}) }},
+		{"a=1, n nested MAP(1) keys at tag 3", func(n int) []byte {
+			return append([]byte{0x00, 0x01, 0x38, 0x00, 0x01}, rep([]byte{0x08, 0x00, 0x01}, n, []byte{0x0c, 0x1c})...)
+		}},
+		{"a=1, n nested LIST(1) at tag 3", func(n int) []byte {
+			return append([]byte{0x00, 0x01, 0x39, 0x00, 0x01}, rep([]byte{0x09, 0x00, 0x01}, n, []byte{0x0c})...)
+		}},
+		{"inn{a=1, n nested MAP(1) keys at tag 3", func(n int) []byte {
+			return append([]byte{0xea, 0x00, 0x01, 0x38, 0x00, 0x01}, rep([]byte{0x08, 0x00, 0x01}, n, []byte{0x0c, 0x1c})...)
+		}},
+		{"inn{a=1, n nested LIST(1) at tag 3", func(n int) []byte {
+			return append([]byte{0xea, 0x00, 0x01, 0x39, 0x00, 0x01}, rep([]byte{0x09, 0x00, 0x01}, n, []byte{0x0c})...)
+		}},
+		{"n nested map values at tag 0", func(n int) []byte { return rep([]byte{0x08, 0x00, 0x01, 0x0c}, n+1, []byte{0x0c, 0x1c}) }},
 		{"n zero-marker fields at tag 13", func(n int) []byte { return rep([]byte{0xdc}, n, nil) }},
 		{"n nested StructBegin at tag 14 (Opts.inn / unknown)", func(n int) []byte { return rep([]byte{0xea}, n, nil) }},
 	}
